@@ -171,10 +171,17 @@ pub fn run(t: &[&str]) -> String {
                 .collect();
             format!("OK {}", parts.join(" ## "))
         }
-        "dec" => match vh::decode(unhex(t[1]), 1) {
-            Ok(m) => format!("OK {}", fmt_msg(&m)),
-            Err(_) => "ERR".into(),
-        },
+        "dec" => {
+            // the decoder runs under the allocation meter; the facade's field-by-field copy of
+            // the decoded message is part of what is measured (it is linear in the message)
+            let data = unhex(t[1]);
+            let (r, max, sum) = crate::metered(|| vh::decode(data, 1));
+            let tail = format!(" ~alloc max={} sum={}", max, sum);
+            match r {
+                Ok(m) => format!("OK {}{}", fmt_msg(&m), tail),
+                Err(_) => format!("ERR{}", tail),
+            }
+        }
         _ => "BADCASE".into(),
     }
 }
